@@ -2,27 +2,46 @@
 
 Fault enumeration: a busy scenario is first run without shutdown to collect its distinct event
 instants; it is then replayed from the same seed once per instant (just before and just after it)
-with Context.shutdown() injected there, and run on for 500 virtual seconds."""
+with Context.shutdown() injected there, and run on for 500 virtual seconds.
+
+The same is done over CoAP-over-TCP (RFC 8323): the real `tcpclient` / `tcpserver` transports of a victim context run on
+an in-memory stream fabric (harness/simtcp.py, no sockets) against scripted raw peers and a second aiocoap context;
+shutdown is injected just before, exactly at and just after every distinct instant of that scenario."""
 
 import random
 
 ID = "C18"
 LEVEL = "fault_enumeration"
-TECHNIQUE = "fault enumeration on a virtual-time simulated network: shutdown() injected just before and just after every distinct event instant of seeded busy scenarios (requests awaiting ACK / separate response, block-wise transfer in flight, observations on both sides, NSTART backlog, pending empty-ACK timers, live dedup entries); oracle over client-boundary records, handler cancellation log, the wire after shutdown returned, the loop exception handler / unraisable hook, and a second context's own exchange"
-LEVEL_TEXT = "For each seeded busy scenario every distinct event instant is used as a shutdown point twice (t-0.1ms, t+0.1ms); each run must show: all pending requests/observations failed with a library error and handlers cancelled within SHUTDOWN_TIMEOUT, shutdown() returned, silence and no loop exception afterwards, later requests failing at once with LibraryShutdown, and the second context unaffected."
-LEVEL_NOTE = "Trusted: determinism of the replay (same seed, PYTHONHASHSEED=0, virtual clock), simnet wire log, the judge in checks/c18.py. Instants are those of wire events and handler log entries of the baseline run."
+TECHNIQUE = "fault enumeration on a virtual-time simulated network: shutdown() injected just before and just after every distinct event instant of seeded busy scenarios (requests awaiting ACK / separate response, block-wise transfer in flight, observations on both sides, NSTART backlog, pending empty-ACK timers, live dedup entries); oracle over client-boundary records, handler cancellation log, the wire after shutdown returned, the loop exception handler / unraisable hook, and a second context's own exchange. Second half over CoAP-over-TCP on an in-memory stream fabric (harness/simtcp.py: loop.create_connection / create_server replaced on the loop instance; link delay, handshake duration, a host that never completes the handshake, scripted RFC 8323 peers that hang up on Release at once / after 0.5 s / after 10 s / never and go on sending Pings, responses and requests meanwhile, a second aiocoap context as peer): shutdown() injected before / at / after every distinct instant of busy scenarios (requests awaiting a response, waiting for a connection being set up or for a handshake that never ends, block-wise transfer in flight, observations on both sides, handlers running, connections being accepted, frames in flight in both directions, requests born in the step of the shutdown); oracle over request outcomes, every byte written / connection opened or accepted after shutdown() returned, the close state of every stream transport 200 s later, the tasks shutdown() started and all tasks left at the end (task factory), exceptions leaving data_received, requests submitted afterwards (over a pooled connection, to a new host, to the host that does not answer, to the aiocoap peer, by the remote of an earlier response), and the second context's own TCP exchange compared with the run without shutdown"
+LEVEL_TEXT = "For each seeded busy scenario every distinct event instant is used as a shutdown point twice (t-0.1ms, t+0.1ms); each run must show: all pending requests/observations failed with a library error and handlers cancelled within SHUTDOWN_TIMEOUT, shutdown() returned, silence and no loop exception afterwards, later requests failing at once with LibraryShutdown, and the second context unaffected. Over TCP every distinct instant of each seeded scenario is used two or three times (t-0.1ms, t itself for every fourth instant in the quick tier and for all in the thorough tier, t+0.1ms); each run must show the same, plus: the tasks that shutdown() started are finished when it returns, no byte is written and no connection opened or accepted after it returned, every stream transport of the context is closed 200 s later, no library task is left, nothing raises out of data_received."
+LEVEL_NOTE = "Trusted: determinism of the replay (same seed, PYTHONHASHSEED=0, virtual clock), simnet wire log, the judge in checks/c18.py. Instants are those of wire events and handler log entries of the baseline run. TCP half: additionally trusted are harness/simtcp.py (asyncio stream transport / Server behaviour re-implemented from CPython 3.12 selector_events.py and base_events.Server: connection_made through call_soon, close() flushing, abort() resetting, writes after close dropped, exceptions out of data_received reported as 'Fatal error' and force-closing, wait_closed() waiting for the accepted connections) and harness/reftcp.py (RFC 8323 framing); instants are those of fabric events (connect, established, accepted, write, deliver, close, lost) and handler log entries of the first 9.5 s of the baseline run; attribution of connections to contexts is by listener owner and by destination address."
 RULE = (
     "one case = one (scenario seed, shutdown instant, before/after) run. Non-trivial = at shutdown at least one request, observation, handler, backlog entry or timer of the context was pending; "
-    "distinct = distinct (scenario variant, set of pending-work kinds at the shutdown instant, before/after) signatures"
+    "distinct = distinct (scenario variant, set of pending-work kinds at the shutdown instant, before/after) signatures. "
+    "TCP half: one case = one (scenario seed, shutdown instant, before/at/after) run; pending-work kinds there are: outgoing requests, incoming requests, connections being set up (all / those whose handshake will complete), connections being accepted, open client-side / server-side connections, frames in flight towards the context, block-wise transfers, running handlers, observers, an established client observation"
 )
-ASSUMPTIONS = ["SHUTDOWN_TIMEOUT is read from aiocoap.numbers.constants at run time", "the busy scenario is deterministic under the seeded PRNG and the virtual clock (checked: the baseline is run twice and must give identical wire logs)"]
-REQUIRED_MONITORS = {"shutdown_returns": 200, "pending_requests_failed": 200, "handlers_cancelled": 50, "silent_after_shutdown": 200, "no_loop_exception": 200, "later_request_fails_fast": 200, "other_context_unaffected": 200, "baseline_deterministic": 1}
+ASSUMPTIONS = [
+    "SHUTDOWN_TIMEOUT is read from aiocoap.numbers.constants at run time",
+    "the busy scenario is deterministic under the seeded PRNG and the virtual clock (checked: the baseline is run twice and must give identical wire logs)",
+    "TCP half: the transports obtain their connections through loop.create_connection / loop.create_server of the running loop and see them only through the asyncio.Transport / Protocol / Server interfaces, which harness/simtcp.py provides with the semantics documented for CPython >= 3.12.1; a host that does not answer makes connect fail with ETIMEDOUT after 127 s (Linux default)",
+    "TCP half: the baseline is deterministic per connection end (checked: run twice, the event sequence of every connection end must be identical; the order of events of different connections within one instant may depend on object addresses through set iteration in the library)",
+]
+REQUIRED_MONITORS = {
+    "shutdown_returns": 200, "pending_requests_failed": 200, "handlers_cancelled": 50, "silent_after_shutdown": 200, "no_loop_exception": 200, "later_request_fails_fast": 200, "other_context_unaffected": 200, "baseline_deterministic": 1,
+    # CoAP over TCP (same thresholds for both tiers; the thorough tier reaches a multiple)
+    "tcp_shutdown_returns": 600, "tcp_shutdown_tasks_finished": 600, "tcp_pending_requests_failed": 600, "tcp_handlers_cancelled": 800, "tcp_silent_after_shutdown": 600, "tcp_no_connect_after_shutdown": 600,
+    "tcp_connections_closed": 6000, "tcp_no_loop_exception": 600, "tcp_later_request_fails_fast": 4000, "tcp_other_context_unaffected": 600, "tcp_baseline_deterministic": 1,
+    # how often the new dimensions were really there: a handshake in flight / any connection set-up pending when shutdown was called, frames under way to the
+    # context at that moment, frames reaching it after shutdown returned, raw peers that did not hang up on Release at once, a peer trying to connect afterwards
+    "tcp_handshake_in_flight_at_shutdown": 200, "tcp_connect_pending_at_shutdown": 600, "tcp_frames_in_flight_at_shutdown": 500, "tcp_frames_arriving_after_shutdown": 500, "tcp_peer_not_hanging_up": 4000, "tcp_connect_attempt_after_shutdown": 600,
+}
 
 
 def plan(tier, seed):
     n = 16
     nseeds = {"quick": 4, "thorough": 24}[tier]
-    return [{"name": "c18-%d" % i, "seed": seed * 1000, "index": i, "of": n, "tier": tier, "nseeds": nseeds} for i in range(n)]
+    tcp_nseeds = {"quick": 3, "thorough": 16}[tier]
+    return [{"name": "c18-%d" % i, "seed": seed * 1000, "index": i, "of": n, "tier": tier, "nseeds": nseeds, "tcp_nseeds": tcp_nseeds} for i in range(n)]
 
 
 def variant(vseed):
@@ -437,6 +456,687 @@ def judge(v, res, box, when, rep, case, T):
     rep.seen("pending_kinds", kinds)
 
 
+# =====================================================================================================
+# the same over CoAP-over-TCP (RFC 8323): real tcpclient / tcpserver transports on harness/simtcp.py
+# =====================================================================================================
+
+TCP_ACTIVE = 9.5  # shutdown instants are taken from the first ... seconds of the scenario
+TCP_MODES = ["at-once", 0.5, 10.0, "never"]  # what a raw peer does about a Release: hang up after ... seconds
+# Requests to one host are submitted one after the other, so that the client pool opens one connection per host. With
+# TCP_TWIN the requests to the silent peer are all submitted in one step while no connection to it exists yet: the
+# current TCPClient then opens one connection per request and forgets all but the last (they are never released; key
+# family tcp-duplicate-connection-orphaned). That is a separate defect, outside what this check was extended for; the
+# switch is here so that the dimension can be turned on once it is dealt with.
+TCP_TWIN = False
+
+
+def variant_tcp(vseed):
+    r = random.Random(vseed * 7919 + 11)
+    return {
+        "delay": r.choice([0.05, 0.2, 0.3]),  # one-way link delay; the handshake takes two of them
+        "slow": r.choice([0.05, 0.4, 2.0]),  # duration of the victim's handlers
+        "resp_after": r.choice([0.3, 0.8, 1.7]),  # raw servers answer after ...
+        "ping_every": r.choice([1.3, 2.3]),
+        "notify_every": r.choice([0.7, 1.5]),
+        "block_len": r.choice([1500, 3000, 5000]),
+        "iter_consumer": r.random() < 0.5,
+        "cancel_one": r.choice([None, "slow", "blockwise"]),
+        "cancel_obs": [None, "pending", "established", "pending"][vseed % 4],
+        "backlog": r.randrange(1, 4),
+        # every scenario has raw peers of all four kinds; which peer is of which kind rotates with the seed
+        "mode_shift": vseed % 4,
+        "twin": TCP_TWIN and vseed % 2 == 0,
+    }
+
+
+def _task_label(task):
+    import re
+
+    name = task.get_name()
+    return re.sub(r"\s+", " ", re.sub(r"0x[0-9a-fA-F]+", "", name.split("<")[0])).strip() or "unnamed"
+
+
+def run_tcp(v, seed, shutdown_at):
+    """One busy CoAP-over-TCP scenario around a victim context (tcpserver + tcpclient); returns (result, box)"""
+    from harness import scenario, simtcp, reftcp as rt
+    import asyncio
+    import logging
+    import aiocoap
+    import aiocoap.resource as R
+
+    box = {}
+    VICTIM, OTHER = "10.1.0.1", "10.1.0.9"
+
+    async def main(loop):
+        main_task = asyncio.current_task()
+        fab = simtcp.Fabric(loop, delay=v["delay"])
+        fab.install()
+        fab.local_ip.update(ctx=VICTIM, other=OTHER)
+        # the second context only ever connects to its own peer and to the victim; nobody else uses create_connection
+        fab.dest_owner = lambda host, port: "other" if host in ("10.1.0.19", VICTIM) else "ctx"
+        tasks = []  # (task, parent task, number of tasks made before)
+        mine = set()  # tasks of the harness itself
+
+        def factory(lp, coro, **kw):
+            t = asyncio.Task(coro, loop=lp, **kw)
+            tasks.append((t, asyncio.current_task(lp)))
+            return t
+
+        loop.set_task_factory(factory)
+
+        def harness_task(coro):
+            t = asyncio.ensure_future(coro)
+            mine.add(t)
+            return t
+
+        info = {"down": False}
+        hlog = []
+
+        class Slow(R.Resource):
+            async def render_post(self, request):
+                cfg = dict(p.split(b"=", 1) for p in bytes(request.payload).split(b";") if b"=" in p)
+                entry = {"ev": "enter", "t": loop.time(), "remote": request.remote.hostinfo, "token": bytes(request.token).hex()}
+                self.log.append(entry)
+                try:
+                    d = float(cfg.get(b"d", b"0"))
+                    if d > 0:
+                        await asyncio.sleep(d)
+                    self.log.append(dict(entry, ev="exit", t=loop.time()))
+                    return aiocoap.Message(code=aiocoap.CHANGED, payload=cfg.get(b"p", b"ok"))
+                except asyncio.CancelledError:
+                    self.log.append(dict(entry, ev="cancelled", t=loop.time()))
+                    raise
+
+        class Obs(R.ObservableResource):
+            def __init__(self):
+                super().__init__()
+                self.n = 0
+                self.count = 0
+
+            def update_observation_count(self, c):
+                self.count = c
+
+            async def render_get(self, request):
+                return aiocoap.Message(payload=b"state-%d" % self.n)
+
+        def site(log, extra=None):
+            s = R.Site()
+            res = Slow()
+            res.log = log
+            s.add_resource(["r"], res)
+            for path, x in (extra or {}).items():
+                s.add_resource(list(path), x)
+            return s
+
+        for name in ("coap-victim", "coap-other"):
+            logging.getLogger(name).setLevel(logging.INFO)  # debug records are never formatted by the collector anyway
+        obsres = Obs()
+        fab.next_server_owner = "ctx"
+        ctx = await aiocoap.Context.create_server_context(site(hlog, {("obs",): obsres}), bind=(VICTIM, None), transports=["tcpserver", "tcpclient"], loggername="coap-victim")
+        fab.next_server_owner = "other"
+        other = await aiocoap.Context.create_server_context(site([]), bind=(OTHER, None), transports=["tcpserver", "tcpclient"], loggername="coap-other")
+        fab.next_server_owner = None
+
+        # ---- raw peers ----
+        raws = []
+
+        def mode_of(i):
+            return TCP_MODES[(i + v["mode_shift"]) % 4]
+
+        def raw(name, kind, mode, behaviour, script=None, pings=True):
+            def on_frame(peer, f):
+                if f.code == rt.RELEASE:
+                    peer.released = loop.time()
+                    if mode == "at-once":
+                        peer.hang_up()
+                    elif mode != "never":
+                        loop.call_later(mode, peer.hang_up)
+                elif f.code == rt.PING:
+                    peer.send(rt.Frame(rt.PONG, f.token, (), b""))
+                elif f.code == 0 or rt.is_signalling(f.code):
+                    pass
+                elif behaviour is not None:
+                    behaviour(peer, f)
+
+            def on_made(peer):
+                def ping(k):
+                    if peer.open and k < 8 and pings:
+                        peer.send(rt.Frame(rt.PING, bytes([k]), (), b""))
+                        loop.call_later(v["ping_every"], ping, k + 1)
+
+                loop.call_later(v["ping_every"] * 0.37, ping, 0)
+                if script is not None:
+                    script(peer)
+
+            p = simtcp.RawStream(loop, on_frame, on_made, name=name)
+            p.kind, p.mode, p.released, p.pings = kind, mode, None, pings
+            raws.append(p)
+            return p
+
+        def b_slow(peer, f):
+            if rt.is_request(f.code):
+                loop.call_later(v["resp_after"], peer.send, rt.Frame(0x45, f.token, (), b"slow-ok"))
+
+        def b_block(peer, f):
+            if rt.is_request(f.code):
+                b1 = [val for n, val in f.options if n == 27]
+                if b1 and int.from_bytes(b1[0], "big") & 8:
+                    peer.send(rt.Frame(0x5F, f.token, ((27, b1[0]),), b""))  # 2.31 Continue
+                else:
+                    peer.send(rt.Frame(0x44, f.token, tuple((27, x) for x in b1[:1]), b""))
+
+        def b_notify(peer, f):
+            if rt.is_request(f.code) and any(n == 6 for n, _ in f.options):
+
+                def tick(k):
+                    if peer.open and k <= 12:
+                        peer.send(rt.Frame(0x45, f.token, ((6, bytes([k]) if k else b""),), b"n%d" % k))
+                        loop.call_later(1.1, tick, k + 1)
+
+                tick(0)
+
+        def b_echo(peer, f):
+            if rt.is_request(f.code):
+                loop.call_later(0.4, peer.send, rt.Frame(0x45, f.token, (), b"other-ok"))
+
+        fab.listen("10.1.0.10", 5683, lambda: raw("silent", "server", mode_of(3), None, pings=False), "raw")
+        fab.listen("10.1.0.11", 5683, lambda: raw("slow", "server", mode_of(0), b_slow), "raw")
+        fab.listen("10.1.0.12", 5683, lambda: raw("block", "server", mode_of(1), b_block), "raw")
+        fab.listen("10.1.0.13", 5683, lambda: raw("notify", "server", mode_of(2), b_notify), "raw")
+        fab.blackhole("10.1.0.15")  # never completes the handshake
+        for k in range(40):
+            fab.listen("10.1.0.%d" % (30 + k), 5683, (lambda k=k: raw("fresh-%d" % k, "server", mode_of(k), b_slow, pings=k % 4 == 1)), "raw")
+        fab.listen("10.1.0.19", 5683, lambda: raw("echo", "server", "at-once", b_echo), "raw")
+
+        # raw clients of the victim's server side: slow requests, an observation, pings; one more client connects every 2.7 s
+        def client_script(first):
+            def script(peer):
+                def rq(k):
+                    if peer.open and k < (8 if first else 2):
+                        peer.send(rt.Frame(2, bytes([0x70 + k]), ((11, b"r"),), b"d=%s;p=x" % repr(v["slow"]).encode()))
+                        loop.call_later(1.3, rq, k + 1)
+
+                loop.call_later(0.15, rq, 0)
+                if first:
+                    loop.call_later(0.1, lambda: peer.send(rt.Frame(1, b"\x6f", ((6, b""), (11, b"obs")), b"")))
+
+            return script
+
+        async def raw_connect(ip, mode, first):
+            try:
+                await fab.connect(lambda: raw("client-" + ip, "client", mode, None, client_script(first)), VICTIM, 5683, owner="raw", local=(ip, 40000))
+            except OSError:
+                info["raw_refused"] = info.get("raw_refused", 0) + 1
+
+        loop.call_later(0.05, lambda: harness_task(raw_connect("10.1.0.14", mode_of(0), True)))
+        for k in range(3):
+            loop.call_later(1.45 + 2.7 * k, lambda k=k: harness_task(raw_connect("10.1.0.%d" % (80 + k), mode_of(k + 1), False)))
+
+        def state_change():
+            obsres.n += 1
+            obsres.updated_state()
+            if obsres.n < 14:
+                loop.call_later(v["notify_every"], state_change)
+
+        loop.call_later(0.5, state_change)
+
+        # ---- client-side work of the victim ----
+        recs = []
+
+        def track(name, rq, dst=None):
+            rec = {"name": name, "t": loop.time(), "done": None, "obs_end": None, "obs_items": 0, "rq": rq, "resp": None, "dst": dst}
+
+            def done(f):
+                rec.update(done=(loop.time(), None if f.cancelled() else f.exception()))
+                if not f.cancelled() and f.exception() is None:
+                    rec["resp"] = f.result()
+
+            rq.response.add_done_callback(done)
+            recs.append(rec)
+            return rec
+
+        def submit(name, uri, code=aiocoap.GET, payload=b"", blockwise=False, observe=None):
+            if info["down"]:
+                return None
+            m = aiocoap.Message(code=code, uri=uri, payload=payload)
+            if observe is not None:
+                m.opt.observe = observe
+            return track(name, ctx.request(m, handle_blockwise=blockwise), uri.split("/")[2])
+
+        def at(t, fn, *a, **kw):
+            loop.call_later(t, lambda: fn(*a, **kw))
+
+        submit("silent-0", "coap+tcp://10.1.0.10/s0")
+        for k in range(1, v["backlog"] + 1):
+            if v.get("twin"):
+                submit("silent-%d" % k, "coap+tcp://10.1.0.10/s%d" % k)
+            else:
+                at(0.9, submit, "silent-%d" % k, "coap+tcp://10.1.0.10/s%d" % k)
+        at(0.05, submit, "connecting", "coap+tcp://10.1.0.15/never")
+        for k in range(9):
+            at(1.1 * k, submit, "slow-%d" % k, "coap+tcp://10.1.0.11/slow%d" % k)
+        for k in range(2):
+            at(0.2 + 4.3 * k, submit, "blockwise-%d" % k, "coap+tcp://10.1.0.12/blk", aiocoap.PUT, b"B" * v["block_len"], True)
+        for k in range(7):
+            at(0.9 + 1.3 * k, submit, "fresh-%d" % k, "coap+tcp://10.1.0.%d/f" % (30 + k))
+        for k in range(3):
+            at(0.3 + 2.9 * k, submit, "toother-%d" % k, "coap+tcp://%s/r" % OTHER, aiocoap.POST, b"d=1.2;p=o")
+        orec = submit("observe", "coap+tcp://10.1.0.13/o", observe=0)
+        orq = orec["rq"]
+        obox = {}
+
+        def pending_observation():
+            r_ = submit("observe-pending", "coap+tcp://10.1.0.10/o-pending", observe=0)
+            if r_ is not None:
+                obox["prec"] = r_
+                r_["rq"].observation.register_errback(lambda e: r_.update(obs_end=(loop.time(), e)))
+
+        at(0.95, pending_observation)
+        if v["iter_consumer"]:
+
+            async def consume():
+                try:
+                    async for m in orq.observation:
+                        orec["obs_items"] += 1
+                    orec["obs_end"] = (loop.time(), "StopAsyncIteration")
+                except asyncio.CancelledError:
+                    raise
+                except Exception as e:
+                    orec["obs_end"] = (loop.time(), e)
+
+            ctask = harness_task(consume())
+        else:
+            orq.observation.register_callback(lambda m: orec.update(obs_items=orec["obs_items"] + 1))
+            orq.observation.register_errback(lambda e: orec.update(obs_end=(loop.time(), e)))
+            ctask = None
+
+        # ---- the second context: client and observer of the victim (not judged), and its own exchange (judged) ----
+        other_recs = []
+
+        def other_request(k):
+            rq = other.request(aiocoap.Message(code=aiocoap.GET, uri="coap+tcp://10.1.0.19/x%d" % k), handle_blockwise=False)
+            rec = {"k": k, "t": loop.time(), "done": None}
+            rq.response.add_done_callback(lambda f: rec.update(done=(loop.time(), None if f.cancelled() else repr(f.exception()) if f.exception() else None, None if f.cancelled() or f.exception() else bytes(f.result().payload))))
+            other_recs.append(rec)
+            if k < 9:
+                loop.call_later(0.9, other_request, k + 1)
+
+        loop.call_later(0.1, other_request, 0)
+        keep = []
+
+        def other_to_victim(k):
+            keep.append(other.request(aiocoap.Message(code=aiocoap.POST, uri="coap+tcp://%s/r" % VICTIM, payload=b"d=%s;p=v" % repr(v["slow"]).encode()), handle_blockwise=False))
+            keep[-1].response.add_done_callback(lambda f: f.cancelled() or f.exception())
+            if k < 5:
+                loop.call_later(1.7, other_to_victim, k + 1)
+
+        loop.call_later(0.25, other_to_victim, 0)
+        oobs = other.request(aiocoap.Message(code=aiocoap.GET, uri="coap+tcp://%s/obs" % VICTIM, observe=0), handle_blockwise=False)
+        oobs.observation.register_callback(lambda m: None)
+        oobs.observation.register_errback(lambda e: None)
+        oobs.response.add_done_callback(lambda f: f.cancelled() or f.exception())
+
+        def ctx_ends():
+            return [e for e in fab.ends if e.owner == "ctx"]
+
+        if shutdown_at is None:
+            await asyncio.sleep(TCP_ACTIVE + 0.5)
+            info["loop_exc_at_end"] = len(loop.exceptions)
+        else:
+            await asyncio.sleep(shutdown_at)
+            tms = list(ctx.request_interfaces)
+            info["pending"] = {
+                "outgoing": sum(len(getattr(tm, "outgoing_requests", None) or {}) for tm in tms),
+                "incoming": sum(len(getattr(tm, "incoming_requests", None) or {}) for tm in tms),
+                "connecting": sum(1 for c in fab.connects if c["owner"] == "ctx" and c["state"] == "pending"),
+                "connecting_handshake": sum(1 for c in fab.connects if c["owner"] == "ctx" and c["state"] == "pending" and c["dst"][0] != "10.1.0.15"),
+                "accepting": sum(1 for e in ctx_ends() if e.side == "s" and e.protocol is None and not e.closing),
+                "client_conns": sum(1 for e in ctx_ends() if e.side == "c" and not e.closing),
+                "server_conns": sum(1 for e in ctx_ends() if e.side == "s" and not e.closing),
+                "frames_in_flight": sum(1 for e in ctx_ends() for it in e.inbox if it[0] == "data"),
+                "blockwise": sum(1 for r in recs if r["name"].startswith("blockwise") and r["done"] is None),
+                "handlers_running": sum(1 for h in hlog if h["ev"] == "enter") - sum(1 for h in hlog if h["ev"] in ("exit", "cancelled")),
+                "observers": obsres.count,
+                "observing": int(orec["done"] is not None and orec["done"][1] is None and orec["obs_end"] is None),
+            }
+            info["down"] = True
+            info["unfinished_before"] = [r["name"] for r in recs if r["done"] is None]
+            info["connecting_before"] = [c["dst"][0] for c in fab.connects if c["owner"] == "ctx" and c["state"] == "pending"]
+            info["t_call"] = loop.time()
+            info["mark_call"] = len(fab.log)
+            # requests born in the very step in which shutdown is called: over an established connection, and needing a new one
+            for name, uri, api in (("justborn-pooled", "coap+tcp://10.1.0.11/justborn", False), ("justborn-fresh", "coap+tcp://10.1.0.60/justborn", False), ("justborn-freshbw", "coap+tcp://10.1.0.62/justborn", True)):
+                info["down"] = False
+                submit(name, uri, blockwise=api)
+                info["down"] = True
+                info["unfinished_before"].append(name)
+            if v.get("cancel_one"):
+                victim = [r for r in recs if r["name"].startswith(v["cancel_one"]) and r["done"] is None]
+                if victim:
+                    victim[0]["rq"].response.cancel()
+                    info["cancelled"] = victim[0]["name"]
+            prec = obox.get("prec")
+            if v.get("cancel_obs") == "pending" and prec is not None and not prec["rq"].observation.cancelled:
+                prec["rq"].observation.cancel()
+                info["cancelled_obs"] = "pending"
+            elif v.get("cancel_obs") == "established" and not orq.observation.cancelled:
+                orq.observation.cancel()
+                info["cancelled_obs"] = "established"
+            ntasks_call = len(tasks)
+            await ctx.shutdown()
+            info["t_ret"] = loop.time()
+            info["mark_ret"] = len(fab.log)
+            info["loop_exc_at_ret"] = len(loop.exceptions)
+            # the tasks that shutdown() started (children of this task while it was inside shutdown(), and theirs)
+            tree = set()
+            for t, parent in tasks[ntasks_call:]:
+                if parent is main_task or parent in tree:
+                    tree.add(t)
+            info["shutdown_tasks"] = len(tree)
+            info["shutdown_tasks_pending"] = sorted(_task_label(t) for t in tree if not t.done())
+            info["open_at_return"] = [repr(e) for e in ctx_ends() if not e.closing]
+            # requests submitted after shutdown must fail at once with the shutdown error, wherever they are addressed
+            late = []
+            probes = [("pooled", "coap+tcp://10.1.0.11/late", False), ("pooled", "coap+tcp://10.1.0.11/late", True), ("fresh", "coap+tcp://10.1.0.61/late", False), ("fresh", "coap+tcp://10.1.0.63/late", True), ("nohandshake", "coap+tcp://10.1.0.15/late", False), ("nohandshake", "coap+tcp://10.1.0.15/late", True), ("aiocoap-peer", "coap+tcp://%s/r" % OTHER, False)]
+            answered = [r for r in recs if r["resp"] is not None]
+            if answered:
+                probes.append(("by-remote", answered[0]["resp"].remote, False))
+            for kind, where, api in probes:
+                if isinstance(where, str):
+                    m = aiocoap.Message(code=aiocoap.GET, uri=where)
+                else:
+                    m = aiocoap.Message(code=aiocoap.GET, uri_path=["late"])
+                    m.remote = where
+                mark = len(fab.log)
+                rq = ctx.request(m, handle_blockwise=api)
+                rq.response.add_done_callback(lambda f: f.cancelled() or f.exception())
+                t0 = loop.time()
+                try:
+                    await asyncio.wait_for(asyncio.shield(rq.response), 5)
+                    outcome = "response"
+                except asyncio.TimeoutError:
+                    outcome = "hang"
+                except Exception as e:
+                    outcome = e
+                late.append({"kind": kind, "api": "blockwise" if api else "raw", "outcome": outcome, "took": loop.time() - t0, "connects": sum(1 for e in fab.log[mark:] if e.kind == "connect" and e.owner == "ctx")})
+            info["late"] = late
+            # peers that have not hung up go on talking: a Ping, and a stray response / a new request
+            probed = 0
+            for p in raws:
+                # (the peers that never send a Ping stay quiet: a connection that nobody closes and nothing happens on)
+                if p.open and p.released is not None and p.pings:
+                    probed += 1
+                    p.send(rt.Frame(rt.PING, b"\xee", (), b""))
+                    if p.kind == "server":
+                        p.send(rt.Frame(0x45, b"\x99", (), b"stray"))
+                    else:
+                        p.send(rt.Frame(2, b"\x98", ((11, b"r"),), b"d=0;p=late"))
+            info["probed"] = probed
+            # a peer that tries to connect now must not be accepted
+            harness_task(raw_connect("10.1.0.99", "at-once", False))
+            info["raw_probe"] = True
+            await asyncio.sleep(200.0)
+        info["handlers"] = list(hlog)
+        for r_ in recs:
+            r_.pop("rq", None)
+            r_.pop("resp", None)
+        if ctask is not None and not ctask.done():
+            ctask.cancel()
+        left = [t for t, parent in tasks if not t.done() and t not in mine and t is not main_task]
+        info["tasks_left"] = sorted(_task_label(t) for t in left)
+        ends = []
+        for e in ctx_ends():
+            first = [i for i, ev in enumerate(fab.log) if ev.conn == e.conn and ev.side == e.side and ev.kind in ("established", "accepted")]
+            frames = []
+            for idx, t, data in e.writes:
+                try:
+                    fr = [rt.parse_frame(x) for x in rt.split(data)[0]]
+                except rt.Malformed:
+                    fr = []
+                frames.append((idx, t, [_frame_name(rt, f) for f in fr] or ["unparsable"]))
+            late_frames = []
+            for idx, t, data in e.late:
+                try:
+                    late_frames += [_frame_name(rt, rt.parse_frame(x)) for x in rt.split(data)[0]]
+                except rt.Malformed:
+                    late_frames.append("unparsable")
+            ends.append({"repr": repr(e), "side": e.side, "conn": e.conn, "late_frames": late_frames, "made": first[0] if first else None, "t_made": e.t_made, "closing": e.closing, "t_closing": e.t_closing, "frames": frames, "late_writes": len(e.late), "peer": e._extra["peername"][0],
+                         "delivered_after": None if shutdown_at is None else sum(1 for ev in fab.log[info["mark_ret"] :] if ev.conn == e.conn and ev.side == e.side and ev.kind in ("deliver", "dropped"))})
+        box.update(fab=fab, recs=recs, other=other_recs, info=info, obs_count=obsres.count, ends=ends, connects=[dict(c, end=None) for c in fab.connects if c["owner"] == "ctx"], raws=[(p.name, p.mode, p.released, p.open) for p in raws])
+        if shutdown_at is None:
+            await ctx.shutdown()
+        await other.shutdown()
+        return True
+
+    res = scenario.run(main, seed, horizon=1e5)
+    return res, box
+
+
+def _frame_name(rt, f):
+    names = {rt.CSM: "CSM", rt.PING: "Ping", rt.PONG: "Pong", rt.RELEASE: "Release", rt.ABORT: "Abort"}
+    if f.code in names:
+        return names[f.code]
+    if f.code == 0:
+        return "empty"
+    if rt.is_request(f.code):
+        return "request"
+    if rt.is_response(f.code):
+        return "response"
+    return "code-%d" % f.code
+
+
+def instants_tcp(box):
+    """exact event instants (shutdown is also injected *at* them), one per 1e-9"""
+    ts = {}
+    for t in [e.t for e in box["fab"].log] + [h["t"] for h in box["info"]["handlers"]]:
+        if 0 < t < TCP_ACTIVE:
+            ts.setdefault(round(t, 9), t)
+    return [ts[k] for k in sorted(ts)]
+
+
+F1 = "tcp-connect-despite-shutdown"  # connection set-up that goes on (or begins) although the context is shut down
+F2 = "tcp-connection-survives-shutdown"  # a connection that existed when shutdown was called lives on afterwards
+
+
+def judge_tcp(v, res, box, when, rep, case, T, base):
+    from aiocoap import error
+
+    if not res.ok:
+        if res.horizon:
+            rep.inconc("horizon")
+        elif res.hang:
+            rep.violation("tcp-shutdown-hangs", "shutdown() (or the work around it) never completed: the event loop ran dry", {"variant": repr(v), "when": when}, case)
+        else:
+            rep.violation("tcp-scenario-exception/" + type(res.error).__name__, "an exception escaped from shutdown() or a request API: %r" % res.error, {"variant": repr(v), "when": when, "tb": rep.exception_witness(res.error)}, case)
+        return
+    fab, info = box["fab"], box["info"]
+    pend = info["pending"]
+    t_call, t_ret, mark_call, mark_ret = info["t_call"], info["t_ret"], info["mark_call"], info["mark_ret"]
+
+    def brief(e):
+        d = e.data
+        return (round(e.t, 4), e.kind, e.conn, e.side, e.owner, d.hex() if isinstance(d, bytes) else d)
+
+    wit = lambda **kw: dict(
+        variant=repr(v), shutdown_at=when, t_call=t_call, t_ret=t_ret, pending=pend, fabric_after_call=[brief(e) for e in fab.log[mark_call:] if e.owner == "ctx"][:40],
+        requests=[(r["name"], None if r["done"] is None else (round(r["done"][0], 4), repr(r["done"][1])[:60])) for r in box["recs"] if r["name"] in info["unfinished_before"]], log_errors=[x["msg"][:200] for x in res.log_errors[:2]], **kw
+    )
+    ends = box["ends"]
+    # shutdown() knew the connection and released it (or tried to, when something else had closed it in the same instant)
+    released = lambda e: any("Release" in names for idx, t, names in e["frames"]) or "Release" in e["late_frames"]
+
+    def family(e):
+        """which connections outlive the shutdown: those it released (and did not close), or those it did not know because
+        they were still being set up (or were set up later); anything else would be a third mechanism"""
+        if released(e):
+            return F2
+        if e["side"] == "s":
+            return "tcp-accepted-connection-not-released"
+        # a client-side connection that was there long before the call, next to another one to the same host
+        if e["made"] is not None and e["made"] < mark_call and e["t_made"] < t_call - 1e-6 and any(o is not e and o["side"] == "c" and o["peer"] == e["peer"] and o["made"] is not None and o["made"] < mark_call for o in ends):
+            return "tcp-duplicate-connection-orphaned"
+        return F1
+
+    # ---- shutdown returns within the time-out, and what it started has come to an end ----
+    rep.monitor("tcp_shutdown_returns")
+    if t_ret - t_call > T + 1e-6:
+        rep.violation("tcp-shutdown-exceeds-timeout", "shutdown() took longer than SHUTDOWN_TIMEOUT", wit(took=t_ret - t_call), case)
+    if info["shutdown_tasks"]:
+        rep.monitor("tcp_shutdown_tasks_finished")
+        if info["shutdown_tasks_pending"]:
+            survivors = [e["repr"] for e in ends if released(e) and (e["t_closing"] is None or e["t_closing"] > t_ret)]
+            rep.violation(
+                (F2 + "/shutdown-tasks-left-pending") if survivors else "tcp-shutdown-tasks-left-pending/" + info["shutdown_tasks_pending"][0].replace(" ", "-"),
+                "shutdown() has returned (after %.3f s) while tasks it started are still pending: it did not complete, and left something running" % (t_ret - t_call),
+                wit(tasks=info["shutdown_tasks_pending"], connections_open_at_return=survivors[:5]), case)
+    left = [x for x in info["tasks_left"] if x not in info["shutdown_tasks_pending"]]
+    if left:
+        rep.violation("tcp-tasks-left-at-end/" + left[0].replace(" ", "-"), "200 s after shutdown() returned a task of the library is still pending", wit(tasks=left), case)
+    # ---- pending requests / observations ----
+    rep.monitor("tcp_pending_requests_failed")
+    connects = box["connects"]
+
+    def in_setup(r):
+        """the request was waiting for a connection to be set up while shutdown ran"""
+        return any(c["dst"][0] == r["dst"] and c["log"] < mark_ret and c["t_start"] >= r["t"] - 1e-9 and (c["t_end"] is None or c["t_end"] >= t_call - 1e-9) for c in connects)
+
+    for r in box["recs"]:
+        kind = r["name"].split("-")[0]
+        if r["done"] is None:
+            rep.violation((F1 + "/outstanding-request-still-pending") if in_setup(r) else "tcp-request-still-pending-after-shutdown/%s" % kind, "an outstanding request never terminated although its context was shut down", wit(request=r["name"]), case)
+            break
+        t_done, exc = r["done"]
+        if r["name"] in info["unfinished_before"]:
+            if t_done > t_call + T + 1e-6:
+                rep.violation((F1 + "/outstanding-request-terminated-late") if in_setup(r) else "tcp-request-terminated-late/%s" % kind, "an outstanding request terminated later than the shutdown time-out (%.3f s after shutdown was called, with %r)" % (t_done - t_call, exc), wit(request=r["name"]), case)
+            if exc is None:
+                if t_done > t_call + 1e-9:
+                    rep.count("tcp_completed_during_shutdown")
+            elif info.get("cancelled") == r["name"]:
+                pass  # cancelled by the application itself just before shutdown
+            elif not isinstance(exc, error.Error):
+                rep.violation("tcp-request-failed-with-non-library-error/%s/%s" % (kind, type(exc).__name__), "an outstanding request was failed with an exception outside the library's error hierarchy at shutdown", wit(exc=repr(exc)), case)
+        if r["name"] == "observe" and r["done"][1] is None and info.get("cancelled_obs") != "established":
+            if r["obs_end"] is None:
+                rep.violation("tcp-observation-not-terminated", "a client-side observation got no terminal signal although its context was shut down", wit(), case)
+            elif r["obs_end"][0] > t_call + T + 1e-6:
+                rep.violation("tcp-observation-terminated-late", "a client-side observation was terminated later than the shutdown time-out", wit(), case)
+            elif not (r["obs_end"][1] == "StopAsyncIteration" or isinstance(r["obs_end"][1], error.Error)):
+                rep.violation("tcp-observation-terminated-with-non-library-error/" + type(r["obs_end"][1]).__name__, "a client-side observation ended with an exception outside the library's error hierarchy", wit(), case)
+    # ---- handlers cancelled ----
+    hl = info["handlers"]
+    running = {}
+    for h in hl:
+        k = (h["remote"], h["token"])
+        if h["ev"] == "enter" and h["t"] <= t_call + 1e-9:
+            running[k] = h
+        elif h["ev"] == "exit" and k in running and h["t"] <= t_call + 1e-9:
+            running.pop(k, None)
+    if running:
+        rep.monitor("tcp_handlers_cancelled", len(running))
+        for k, h in running.items():
+            ends_ = [x for x in hl if (x["remote"], x["token"]) == k and x["ev"] in ("exit", "cancelled") and x["t"] >= h["t"]]
+            if not ends_ or ends_[0]["ev"] != "cancelled" or ends_[0]["t"] > t_call + T + 1e-6:
+                if ends_ and ends_[0]["ev"] == "exit" and abs(ends_[0]["t"] - t_call) < 1e-9:
+                    continue  # finished in the very instant of the shutdown call
+                rep.violation("tcp-handler-not-cancelled", "a server handler that was running when shutdown() was called was not cancelled within the shutdown time-out", wit(handler=repr(h), ends=repr(ends_[:1])), case)
+                break
+    if box["obs_count"] != 0:
+        rep.violation("tcp-server-observation-not-ended", "a server-side observation survived shutdown (observer count %d)" % box["obs_count"], wit(), case)
+    # ---- nothing is transmitted, no connection opened or accepted after shutdown returned ----
+    rep.monitor("tcp_silent_after_shutdown")
+    reported = set()
+    for e in ends:
+        sent = [n for idx, t, names in e["frames"] if idx >= mark_ret for n in names]
+        if sent:
+            key = "%s/frame-sent/%s" % (family(e), sent[0])
+            if key not in reported:
+                reported.add(key)
+                rep.violation(key, "the context wrote to a connection %s after shutdown() had returned" % ("that shutdown() had released" if released(e) else "that shutdown() has not released (set up while or after it ran)"), wit(connection=e["repr"], frames=[(round(t - t_ret, 4), names) for idx, t, names in e["frames"] if idx >= mark_ret][:5]), case)
+    rep.monitor("tcp_no_connect_after_shutdown")
+    opened = [c for c in connects if c["log"] >= mark_ret]
+    if opened:
+        rep.violation(F1 + "/connection-opened", "the context started to open a connection after shutdown() had returned", wit(connects=[(round(c["t_start"] - t_ret, 4), c["dst"], c["state"]) for c in opened][:5]), case)
+    accepted = [ev for ev in fab.log[mark_ret:] if ev.kind == "accepted" and ev.owner == "ctx"]
+    if accepted:
+        rep.violation("tcp-connection-accepted-after-shutdown", "the context accepted a connection after shutdown() had returned", wit(events=[brief(ev) for ev in accepted[:3]]), case)
+    # ---- nothing is left open ----
+    if ends:
+        rep.monitor("tcp_connections_closed", len(ends))
+        reported = set()
+        for e in ends:
+            if e["closing"]:
+                continue
+            key = family(e) + ("/never-closed" if released(e) else "/connection-never-closed")
+            if key not in reported:
+                reported.add(key)
+                rep.violation(key, "200 s after shutdown() returned a connection of the context is still open (%s)" % ("Release was sent, the peer did not hang up, nobody closed it" if released(e) else "shutdown() did not release it: it was set up while or after shutdown ran"), wit(connection=e["repr"], frames=[names for idx, t, names in e["frames"]][-4:]), case)
+    # ---- nothing raises in the loop ----
+    rep.monitor("tcp_no_loop_exception")
+    reported = set()
+    for x in res.loop_exceptions:
+        fatal = [f for f in fab.fatal if abs(f["t"] - x["vtime"]) < 1e-9 and f["exc"] == (x.get("exception") or "")[:300] and (x.get("message") or "").startswith("Fatal error: protocol.")]
+        if fatal and fatal[0]["owner"] == "ctx":
+            e = [e for e in ends if (e["conn"], e["side"]) == (fatal[0]["conn"], fatal[0]["side"])][0]
+            key = "%s/%s-raises/%s" % (family(e) if x["vtime"] >= t_call - 1e-9 else "tcp-before-shutdown", "data-received" if "data_received" in x["message"] else "eof-received", x.get("exc_type"))
+        elif fatal:
+            key = "tcp-other-context-affected/loop-exception/%s" % x.get("exc_type")
+        else:
+            key = "tcp-loop-exception/" + str(x.get("exc_type"))
+        if key not in reported:
+            reported.add(key)
+            rep.violation(key, "a callback of the context raised in the event loop %s shutdown" % ("after" if x["vtime"] >= t_ret - 1e-9 else "during" if x["vtime"] >= t_call - 1e-9 else "before"), wit(loop=x, connection=fatal[0] if fatal else None), case)
+    if res.unraisable:
+        rep.violation("tcp-unraisable-after-shutdown", "an exception was raised in a finalizer", wit(unraisable=res.unraisable[:2]), case)
+    if res.logging_failures:
+        rep.violation("tcp-logging-call-failed", "a logging call inside the library raised", wit(failures=res.logging_failures[:2]), case)
+    # ---- later requests fail at once with the shutdown error ----
+    rep.monitor("tcp_later_request_fails_fast", len(info["late"]))
+    reported = set()
+    for q in info["late"]:
+        outcome = q["outcome"]
+        if outcome == "hang":
+            key = "%s/later-request-hangs/%s" % (F1, q["api"]) if q["connects"] else "tcp-later-request-hangs/%s-%s" % (q["kind"], q["api"])
+            what = "a request submitted after shutdown neither completed nor failed within 5 s" + (" (it waits for a connection that the context started to open)" if q["connects"] else "")
+        elif outcome == "response" or not isinstance(outcome, error.LibraryShutdown):
+            key = "tcp-later-request-wrong-outcome/%s-%s/%s" % (q["kind"], q["api"], type(outcome).__name__ if not isinstance(outcome, str) else outcome)
+            what = "a request submitted after shutdown did not fail with the shutdown error"
+        elif q["took"] > 1e-6:
+            key = "%s/later-request-fails-late/%s" % (F1, q["api"]) if q["connects"] else "tcp-later-request-fails-late/%s-%s" % (q["kind"], q["api"])
+            what = "a request submitted after shutdown failed only after %r s" % q["took"] + (" (once the connection that the context opened for it was there)" if q["connects"] else "")
+        else:
+            continue
+        if key not in reported:
+            reported.add(key)
+            rep.violation(key, what, wit(probe={k: repr(x) for k, x in q.items()}), case)
+    # ---- the other context: its own exchange goes exactly as in the run without shutdown ----
+    rep.monitor("tcp_other_context_unaffected")
+    for r, b in zip(box["other"], base):
+        same = r["k"] == b["k"] and abs(r["t"] - b["t"]) < 1e-9 and r["done"] is not None and r["done"][1] is None and r["done"][2] == b"other-ok" and abs(r["done"][0] - b["done"][0]) < 1e-9
+        if not same:
+            rep.violation("tcp-other-context-affected", "an exchange of a second context in the same process did not go as it does without the shutdown", wit(other=repr(r), baseline=repr(b)), case)
+            break
+    if len(box["other"]) != len(base):
+        rep.violation("tcp-other-context-affected", "a second context in the same process made another number of exchanges than without the shutdown", wit(), case)
+    # ---- how much of the new dimensions this case had ----
+    if pend["connecting_handshake"]:
+        rep.monitor("tcp_handshake_in_flight_at_shutdown")
+    if pend["connecting"]:
+        rep.monitor("tcp_connect_pending_at_shutdown")
+    if sum(e["delivered_after"] or 0 for e in ends):
+        rep.monitor("tcp_frames_arriving_after_shutdown")
+    slowpeers = [p for p in box["raws"] if p[2] is not None and p[1] != "at-once"]
+    if slowpeers:
+        rep.monitor("tcp_peer_not_hanging_up", len(slowpeers))
+    if info.get("raw_probe"):
+        rep.monitor("tcp_connect_attempt_after_shutdown")
+    if pend["frames_in_flight"]:
+        rep.monitor("tcp_frames_in_flight_at_shutdown")
+    kinds = tuple(sorted(k for k, n in pend.items() if n))
+    rep.case(("tcp", repr(sorted(v.items())), tuple(sorted((k, min(n, 3)) for k, n in pend.items() if n)), when[1]), nontrivial=bool(kinds))
+    rep.seen("tcp_pending_kinds", kinds)
+
+
 def run_shard(shard, rep, only=None):
     from harness import vloop
 
@@ -448,6 +1148,8 @@ def run_shard(shard, rep, only=None):
     for s in range(shard["nseeds"]):
         vseed = shard["seed"] + s
         v = variant(vseed)
+        if only is not None and only[0] in ("tcp", "tcp-baseline"):
+            break
         res, box = run(v, vseed, None)
         if not res.ok:
             rep.inconc("baseline scenario failed: hang=%r error=%r" % (res.hang, res.error))
@@ -478,3 +1180,50 @@ def run_shard(shard, rep, only=None):
             if pi < 2 and s == 0 and idx == 0:
                 rep.sample({"class": "shutdown-point", "variant": v, "t": t, "side": ba, "pending": b_.get("info", {}).get("pending")})
         rep.count("instants", len(ts))
+    # ---- the same over TCP ----
+    for s in range(shard.get("tcp_nseeds", 0)):
+        vseed = shard["seed"] + s
+        v = variant_tcp(vseed)
+        if only is not None and (only[0] not in ("tcp", "tcp-baseline") or only[1] != s):
+            continue
+        res, box = run_tcp(v, vseed, None)
+        if not res.ok or any(r["done"] is None or r["done"][1] is not None or r["done"][2] != b"other-ok" for r in box["other"]):
+            rep.inconc("tcp baseline scenario failed: hang=%r error=%r other=%r" % (res.hang, res.error, box.get("other")))
+            continue
+        if idx == 0:
+            res2, box2 = run_tcp(v, vseed, None)
+            # (the order in which the final shutdown walks its set of connections depends on object addresses)
+            # and so does the order in which the observers of a resource are notified: compare per connection end
+            def per_end(b):
+                d = {}
+                for e in b["fab"].log:
+                    if e.t < TCP_ACTIVE:
+                        d.setdefault((e.conn, e.side), []).append(tuple(e))
+                return d
+
+            same = res2.ok and per_end(box) == per_end(box2)
+            if not same:
+                rep.inconc("tcp baseline scenario is not deterministic")
+                continue
+            rep.monitor("tcp_baseline_deterministic")
+        if res.loop_exceptions[: box["info"]["loop_exc_at_end"]]:
+            rep.violation("tcp-baseline-loop-exception/" + str(res.loop_exceptions[0].get("exc_type")), "an exception reached the event loop in the busy TCP scenario even without shutdown", {"loop": res.loop_exceptions[:2]}, ["tcp-baseline", s])
+        ts = instants_tcp(box)
+        points = []
+        for i, t in enumerate(ts):
+            points.append((t - 1e-4, "before"))
+            if shard["tier"] == "thorough" or i % 4 == s % 4:
+                points.append((t, "at"))
+            points.append((t + 1e-4, "after"))
+        points = [p for p in points if p[0] > 0]
+        for pi, (t, ba) in enumerate(points):
+            if pi % of != idx:
+                continue
+            case = ["tcp", s, pi]
+            if only is not None and only != case:
+                continue
+            r_, b_ = run_tcp(v, vseed, t)
+            judge_tcp(v, r_, b_, (round(t, 6), ba), rep, case, T, box["other"])
+            if pi < 2 and s == 0 and idx == 0:
+                rep.sample({"class": "tcp-shutdown-point", "variant": v, "t": t, "side": ba, "pending": b_.get("info", {}).get("pending")})
+        rep.count("tcp_instants", len(ts))
